@@ -197,12 +197,31 @@ class DupGuard:
         self.data, self.t, self.last_qu = data, t_ms, has_qu
 
 
+class GuardSet:
+    """The duplicate guards of all sockets of one instance: a datagram accepted on one socket clears the memory of the
+    others (only back-to-back copies are duplicates; traffic on another socket ends the back-to-back run)."""
+
+    def __init__(self):
+        self.g = {}
+
+    def check(self, sock_label, data, t_ms):
+        """-> True when the datagram is to be processed (and records it), False when it is a suppressed duplicate."""
+        g = self.g.setdefault(sock_label, DupGuard())
+        return not g.suppressed(data, t_ms)
+
+    def accept(self, sock_label, data, t_ms, has_qu):
+        self.g.setdefault(sock_label, DupGuard()).accept(data, t_ms, has_qu)
+        for k, other in self.g.items():
+            if k != sock_label:
+                other.data = None
+
+
 class HostModel:
     """What one host has heard: duplicate guard per socket + ModelCache fed with accepted responses."""
 
     def __init__(self, start_s):
         self.cache = ModelCache(start_s)
-        self.guards = {}
+        self.guards = GuardSet()
         self.suppressed = 0
 
     def on_rx(self, t_s, sock_label, data, v6sock=False):
@@ -211,12 +230,11 @@ class HostModel:
         self.cache.advance(t_s)
         if len(data) > wire.MAX_ABS:
             return None, None
-        g = self.guards.setdefault(sock_label, DupGuard())
-        if g.suppressed(data, t_ms):
+        if not self.guards.check(sock_label, data, t_ms):
             self.suppressed += 1
             return None, None
         msg = wire.try_decode(data)
-        g.accept(data, t_ms, bool(msg and any(q.qu for q in msg.questions)))
+        self.guards.accept(sock_label, data, t_ms, bool(msg and any(q.qu for q in msg.questions)))
         if msg is None:
             return None, None
         if msg.is_response:
